@@ -7,6 +7,7 @@ CONSTANT Deltas <- DeltasFlt
 CONSTANT Factors <- FactorsS
 CONSTANT Divisors <- DivFlt
 CONSTANT Halves <- Empty
+CONSTANT Thrower = FALSE
 CONSTANT MaxLen = 0
 INVARIANTS TypeOK ExactlyOnce NewValue
 PROPERTY ChangeNotifies
